@@ -12,10 +12,19 @@ func genEvalFlavor(stream, flavor string, nQuick, nThorough int) func(r *h.Rand,
 		for i := 0; i < n; i++ {
 			cs = append(cs, evalCase(stream, genProgram(r, flavor)))
 		}
+		for i := 0; i < n/2; i++ {
+			cs = append(cs, oracleCase("oracle", r, flavor))
+		}
 		return cs
 	}
 }
 
 func init() {
 	h.RegisterProp(&h.Prop{ID: "C01", Gen: genEvalFlavor("eval", "escape", 600, 20000)})
+	h.RegisterProp(&h.Prop{ID: "C05", Gen: genEvalFlavor("eval", "control", 600, 20000)})
+	h.RegisterProp(&h.Prop{ID: "C07", Gen: genEvalFlavor("eval", "scope", 600, 20000)})
+	h.RegisterProp(&h.Prop{ID: "C09", Gen: genEvalFlavor("eval", "include", 600, 20000)})
+	h.RegisterProp(&h.Prop{ID: "C12", Gen: genEvalFlavor("eval", "errors", 600, 20000)})
+	h.RegisterProp(&h.Prop{ID: "C13", Gen: genEvalFlavor("eval", "try", 600, 20000)})
+	h.RegisterProp(&h.Prop{ID: "C17", Gen: genEvalFlavor("eval", "isset", 600, 20000)})
 }
